@@ -30,7 +30,8 @@ RULE = (
     "inspect(), and after the message was merged into a running order whose stories are then edited "
     "(items deleted inside every story).  Non-trivial = >= 2 sources/carried elements, or a blank "
     "target, or compact XML."
-    ' Also: the FIRST read of StorySend.story on a fresh object is compared with the text, and reading accessors / inspect() must leave str(message) unchanged; IDs in CDATA sections; a str carrying a foreign encoding declaration.')
+    ' Also: the FIRST read of StorySend.story on a fresh object is compared with the text, and reading accessors / inspect() must leave str(message) unchanged; IDs in CDATA sections; a str carrying a foreign encoding declaration.'
+    ' Round 11: the roCreate text of the running order a message was merged into is read again afterwards (generic and class entry points in turn) and must expose what the text names.')
 ASSUMPTIONS = ['source IDs are non-blank (a blank *source* names nothing; only blank targets are in the stated domain)']
 MANDATORY = ['cdata', 'multi-source', 'repeated-source-id', 'blank-target', 'compact', 'pretty', 'inspect'] + \
     [f'class:{k}' for k in sorted(set(B.TAG_CLASS.values()) | set(B.EA_KINDS))]
@@ -113,8 +114,11 @@ def _merge_and_edit(mo, m):
             ids.append(extra)
     stories = [gen.plain_story(sid, item_ids + ['K0', 'K1']) for sid in ids]
     ro_id = m.base.findtext('roID') or 'RO1'
+    ro_text = B.tostring(B.envelope(B.ro_create(ro_id, stories), 1))
+    named = [(sid, item_ids + ['K0', 'K1']) for sid in ids]
     try:
-        ro = RunningOrder.from_string(B.tostring(B.envelope(B.ro_create(ro_id, stories), 1)))
+        # read through the generic entry point or the class's own, in turn
+        ro = (MosFile if h64(ro_text) % 2 else RunningOrder).from_string(ro_text)
         try:
             ro += mo
         except Exception:
@@ -130,6 +134,16 @@ def _merge_and_edit(mo, m):
                         pass
     except Exception:
         pass
+    # the roCreate text read again (after an object read from the same text was merged into and
+    # edited) exposes the stories and items the TEXT names
+    try:
+        with warnings.catch_warnings():
+            warnings.simplefilter('ignore')
+            again = MosFile.from_string(ro_text)
+            got = [(s_.id, [i.id for i in s_.items]) for s_ in again.stories]
+    except Exception as e:
+        got = f'EXC {type(e).__name__}'
+    return None if got == named else (named, got)
 
 
 def access_ok(story):
@@ -275,7 +289,11 @@ def judge_msg(case):
         # ... and after the message was merged and the running order edited further: the
         # object must keep exposing what the message names
         if m.level in ('story', 'item') and not fails:
-            _merge_and_edit(mo, m)
+            reread = _merge_and_edit(mo, m)
+            if reread is not None:
+                fail('roCreate-read-again|exposes-other-content',
+                     'a roCreate text read again - after an object read from the same text was merged into - exposes '
+                     'other stories / items than the text names', reread[0], reread[1])
             if msg_view(mo) != view1:
                 fail('accessors|changed-by-merge-and-later-edit',
                      'after merging the message and deleting items inside the stories it carries/addresses, '
